@@ -5,10 +5,11 @@ ROOT = os.path.dirname(os.path.dirname(os.path.abspath(__file__)))
 sys.path.insert(0, ROOT)
 props = [json.loads(l)["id"] for l in open(os.path.join(ROOT, "properties.jsonl"))]
 NOT_YET = json.load(open(os.path.join(ROOT, "tools", "not_claimed.json")))
+CLAIMED = set(json.load(open(os.path.join(ROOT, "tools", "claimed.json"))))  # checks that pass on the unchanged tree
 checks, na = [], []
 for pid in props:
     path = os.path.join(ROOT, "checks", pid.lower() + ".py")
-    if not os.path.exists(path):
+    if not os.path.exists(path) or pid not in CLAIMED:
         na.append({"property_id": pid, "reason": NOT_YET.get(pid, "check not built yet in this round (planned; see DESIGN.md section 6)")})
         continue
     m = importlib.import_module("checks." + pid.lower()).META
